@@ -5,7 +5,7 @@ CONSTANTS
   MaxSteps = 4
   ReleaseOnFailedCtor = FALSE
   RollbackKeepsLock = TRUE
-  AllowFailedRollback = FALSE
+  FailedRollbackKeepsLock = TRUE
   AtomicAcquire = TRUE
 CONSTRAINT Bounded
 INVARIANT LockFreeIffNoWriter
